@@ -246,7 +246,7 @@ class Evaluator:
             return len(v[1]) > 0
         if v[0] in ("obj", "rec", "fn", "name"):
             return True
-        if v[0] == "call" and v[1][0] == "name":
+        if _constructed(v):
             return True                       # a constructed object
         return self.ask(("truth", v), facts)
 
@@ -353,8 +353,7 @@ class Evaluator:
             if l == r:
                 return want
             def definite(t):
-                return t[0] in ("none", "obj", "rec", "const", "tuple", "fn", "name") or (
-                    t[0] == "call" and t[1][0] == "name")
+                return t[0] in ("none", "obj", "rec", "const", "tuple", "fn", "name") or _constructed(t)
             if definite(l) and definite(r):
                 return (l == r) == want
             return self.ask(("is", ) + tuple(sorted((l, r), key=repr)), facts) == want
@@ -484,6 +483,16 @@ class Evaluator:
         return self.ask(("isinstance", v, tuple(names)), facts)
 
     # }}}
+
+
+def _constructed(t):
+    """A call of a class (by the naming convention of the analysed code: a
+    capitalised name) - an object, not None and true.  The value of any other
+    call is unknown."""
+    if t[0] != "call" or t[1][0] != "name":
+        return False
+    n = t[1][1].split(".")[-1]
+    return n[:1].isupper()
 
 
 class _Continue(Exception):
